@@ -229,6 +229,35 @@ def run_placed(case, res=None):
             if "exception" in o:
                 raise Violation("%s: setup/search in a fresh interpreter raised: %s" % (scheme, o["exception"]), "%s:fresh_interpreter_exception" % scheme)
             r4 = [[tuple(x) if isinstance(x, list) else x for x in seq] for seq in o["reads"]]
+            # ... and two workers forked from a parent that built the scheme object (and used it once): they share that object
+            o2 = fresh.run_job({"kind": "reads_forked", "scheme": scheme, "cfg": cfg, "key_hex": key1.serialize().hex(), "db": fresh.db_to_json(db)},
+                               hashseed=7 + case["seed"] % 1000)
+            if "error" in o2:
+                from vlib.runner import HarnessError
+                raise HarnessError("forked setup failed: %s" % o2["error"])
+            if "exception" in o2 or any(isinstance(x, dict) for x in o2.get("reads_list", [])):
+                raise Violation("%s: setup/search in a forked worker raised: %r" % (scheme, o2.get("exception") or o2.get("reads_list")),
+                                "%s:forked_worker_exception" % scheme)
+            r_forked = o2["reads_list"]
+        r5 = r6 = None
+        if scheme != "CGKO06.SSE1":
+            # other use of the library between two setups (the same small CT14 / ANSS16 / DP17 indexes are built before each): what
+            # else the process does must not make two placements coincide
+            with entropy((case["seed"], "prelude")):
+                def prelude():
+                    for other in ("CT14.Pi", "ANSS16.Scheme3", "DP17.Pi"):
+                        ol = S.load(other)
+                        ocfg = S.default_config(other)
+                        osch = ol.SSEScheme(dict(ocfg))
+                        okey = ol.SSEKey.deserialize(bytes(range(1, 1 + len(osch.KeyGen().serialize()))), ol.SSEConfig(dict(ocfg)))
+                        isz = S.DESCS[other].id_size(ocfg)
+                        osch.EDBSetup(okey, {b"p": [bytes([1]) * isz, bytes([2]) * isz, bytes([3]) * isz], b"q": [bytes([4]) * isz, bytes([5]) * isz]})
+                prelude()
+                edb5 = sch.EDBSetup(key1, db)
+                prelude()
+                edb6 = sch.EDBSetup(key1, db)
+                r5 = reads_of(scheme, sch, key1, edb5, db)
+                r6 = reads_of(scheme, sch, key1, edb6, db)
     except Violation:
         raise
     except Exception as e:
@@ -260,6 +289,13 @@ def run_placed(case, res=None):
         if r4 is not None and r1 == r4:
             raise Violation("%s: a setup in another process (fresh interpreter, same key and database) reads exactly the same slots as the "
                             "first one (%d block reads)" % (scheme, m), "%s:placement_repeats_across_processes" % scheme)
+        if r5 is not None and r5 == r6:
+            raise Violation("%s: two setups of the same database, each preceded by the same other use of the library (small CT14, ANSS16 and "
+                            "DP17 indexes built with a fixed key), read exactly the same slots (%d block reads)" % (scheme, m),
+                            "%s:placement_repeats_after_other_library_use" % scheme)
+        if r4 is not None and r_forked[0] == r_forked[1]:
+            raise Violation("%s: two workers forked from a parent that had built the scheme object read exactly the same slots (%d block "
+                            "reads): the placement generator is duplicated by fork" % (scheme, m), "%s:placement_repeats_across_forked_workers" % scheme)
         if r1 == r3:
             raise Violation("%s: a setup in a fresh interpreter state (construction module reloaded, new scheme object, other entropy) "
                             "reads exactly the same slots as the first one (%d block reads): placement does not depend on fresh randomness" % (
